@@ -90,6 +90,8 @@ class C02:
         s = Script()
         emit_schema(s, 0, schema)
         s.add("cwd", hx(fx))
+        if case.get("stack"):
+            s.add("stacklimit", case["stack"])
         for k in ENV_SIZES:
             s.add("env", hx("B%d" % k), "r%d*%s" % (2 ** k, "b".encode().hex()))
         if case.get("noerr"):
@@ -195,6 +197,14 @@ class C02:
             add("tok-newlines-2e%d" % k, [X("i ="), R(n, "\n"), X("1")])
             add("tok-escapes-2e%d" % k, [X("s = \""), R(n, "\\x41\\101\\n"), X("\"")])
             add("tok-cont-2e%d" % k, [X("s = \""), R(n, "\\\n"), X("\"")])
+        # stack use must not grow with the input: long names, path steps, titles, values, arguments under a 256 kB stack
+        for k in (12, 16, 19, 20):
+            n = 2 ** k
+            for nm, parts in (("name", [R(n, "a"), X(" = 1")]), ("path-step", [R(n, "a"), X("|x = 1")]), ("path-step-title", [R(n, "a"), X("=t|x = 1")]),
+                              ("title", [X("tm "), R(n, "a"), X(" { }")]), ("bare-value", [X("s = "), R(n, "a")]), ("func-arg", [X("fn("), R(n, "a"), X(")")]),
+                              ("path-second-step", [X("single|"), R(n, "a"), X("|x = 1")])):
+                shapes.append({"schema": "mixed", "flags": 0, "via": "buf", "text": parts, "shape": "small-stack-%s-2e%d" % (nm, k), "stack": 262144})
+                shapes.append({"schema": "mixed", "flags": F_IGNORE_UNKNOWN, "via": "buf", "text": parts, "shape": "small-stack-%s-2e%d" % (nm, k), "stack": 262144})
         for k in ENV_SIZES:
             add("tok-env-set-2e%d" % k, [X("s = \"x${B%d}y\"" % k)])
             add("tok-env-set-bare-2e%d" % k, [X("s = ${B%d}${B%d}" % (k, k))])
